@@ -580,7 +580,7 @@ def _files(fn):
 
 
 for _n, _f in (("builtins.open", "open_file"), ("os.path.exists", "path_exists"), ("os.unlink", "unlink"),
-               ("os.remove", "unlink"), ("pickle.dump", "pickle_dump"), ("pickle.load", "pickle_load")):
+               ("os.remove", "unlink"), ("pickle.dump", "pickle_dump"), ("pickle.load", "pickle_load"), ("json.dump", "json_dump")):
     external(_n, "D2: ghost file system (pyvc/files.py)")(_files(_f))
 
 
@@ -600,7 +600,7 @@ def _paths(fn):
     return h
 
 
-for _n, _f in (("pathlib.Path", "make_path"), ("pathlib.Path.home", "home"), ("os.replace", "os_replace")):
+for _n, _f in (("pathlib.Path", "make_path"), ("pathlib.Path.home", "home"), ("os.replace", "os_replace"), ("json.loads", "json_loads")):
     external(_n, "D2: ghost file system with directories (pyvc/paths.py)")(_paths(_f))
 
 
